@@ -2,6 +2,7 @@ package state
 
 import (
 	"math/big"
+	"sync"
 
 	"github.com/icon-project/goloop/common"
 	"github.com/icon-project/goloop/common/codec"
@@ -148,6 +149,9 @@ type worldContext struct {
 	governance module.Address
 
 	systemInfo systemStorageInfo
+	// siLock orders the dispatcher's copy of systemInfo (WorldStateChanged)
+	// with its update by the worker of the previous transaction
+	siLock sync.Mutex
 
 	blockInfo    module.BlockInfo
 	csInfo       module.ConsensusInfo
@@ -364,12 +368,15 @@ func tryVirtualState(ws WorldState) WorldVirtualState {
 }
 
 func (c *worldContext) WorldStateChanged(ws WorldState) WorldContext {
+	c.siLock.Lock()
+	systemInfo := c.systemInfo
+	c.siLock.Unlock()
 	wc := &worldContext{
 		WorldState:   ws,
 		virtualState: tryVirtualState(ws),
 		treasury:     c.treasury,
 		governance:   c.governance,
-		systemInfo:   c.systemInfo,
+		systemInfo:   systemInfo,
 		blockInfo:    c.blockInfo,
 		csInfo:       c.csInfo,
 		platform:     c.platform,
@@ -430,7 +437,9 @@ func (c *worldContext) stepCostInfo() interface{} {
 				stepCosts[k] = v
 			}
 		}
+		c.siLock.Lock()
 		c.systemInfo.stepCostInfo = common.MustEncodeAny(stepCosts)
+		c.siLock.Unlock()
 	}
 	return c.systemInfo.stepCostInfo
 }
@@ -462,7 +471,15 @@ func (c *worldContext) SkipTransactionEnabled() bool {
 }
 
 func (c *worldContext) UpdateSystemInfo() {
-	if c.systemInfo.Update(c) {
+	// update a private copy and publish it under the lock: the lock is never
+	// held across a state access (which may wait for a predecessor's commit)
+	c.siLock.Lock()
+	si := c.systemInfo
+	c.siLock.Unlock()
+	if si.Update(c) {
+		c.siLock.Lock()
+		c.systemInfo = si
+		c.siLock.Unlock()
 		c.info = nil
 	}
 }
